@@ -136,6 +136,8 @@ def gen_family(rng, hashseeds, tier):
             m['fs'] = {'write_through': True, 'short_reads': False}
             if rng.random() < 0.25:
                 m['poison'] = {'mode': 1, 'seed': rng.randrange(1, 2 ** 63), 'name': 'stream'}
+            if rng.random() < 0.25:
+                m['tty'] = True                # stdout attached to a terminal
             i += 1
             members.append(m)
     # a run that is killed at a seeded point and started again in the same directory is a "repeated fresh run" too:
@@ -196,7 +198,8 @@ def outcome(v):
 
 
 def member_summary(m):
-    out = {'num_threads': m['cli']['num_threads'], 'service_mode': m['service_mode'], 'seed': m['seed'], 'hashseed': m['hashseed'], 'poison': (m.get('poison') or {}).get('name')}
+    out = {'num_threads': m['cli']['num_threads'], 'service_mode': m['service_mode'], 'seed': m['seed'], 'hashseed': m['hashseed'], 'poison': (m.get('poison') or {}).get('name'),
+           'tty': bool(m.get('tty'))}
     if m.get('phases'):
         out['killed_at_then_restarted'] = m['phases'][0].get('crash')
     return out
@@ -237,7 +240,7 @@ def shrink_pair(pool, a, b, cls, wall=45.0):
     cur_a, cur_b = a, b
     # isolate the deciding dimension: make b equal to a in every member-specific knob that is not needed
     if cls in ('ranks-differ', 'outcome-differs') and not (cur_a.get('phases') or cur_b.get('phases')):
-        for knob in ('poison', 'seed', 'service_mode', 'num_threads', 'hashseed'):
+        for knob in ('poison', 'tty', 'seed', 'service_mode', 'num_threads', 'hashseed'):
             nb = copy.deepcopy(cur_b)
             if knob == 'num_threads':
                 if nb['cli']['num_threads'] == cur_a['cli']['num_threads']:
@@ -273,7 +276,7 @@ def shrink_pair(pool, a, b, cls, wall=45.0):
                 continue
             if cur_a['cli'].get('num_threads') != cur_b['cli'].get('num_threads'):
                 cb['cli']['num_threads'] = cur_b['cli']['num_threads']
-            for k in ('service_mode', 'seed', 'hashseed'):
+            for k in ('service_mode', 'seed', 'hashseed', 'tty'):
                 cb[k] = cur_b.get(k)
             if cur_b.get('phases'):
                 cb['phases'] = copy.deepcopy(cur_b['phases'])
